@@ -108,6 +108,17 @@ def case_basis(dim, shape, x_range, dtype):
     want = ref @ dense.ravel().astype(np.float64)
     if np.abs(sol.ravel() - want).max() > tol * np.abs(dense).sum():
         fails.append(Fail(f"{tag}:dense", "dense right-hand side: result differs from direct summation", shape=shape, dtype=dtype))
+    # amplitude alphabet: a linear solve has no absolute thresholds
+    for amp in (1e-8, 1e-20, 1e10):
+        scaled = (dense.astype(np.float64) * amp).astype(dtype)
+        sol_a = np.full(shape, np.nan, dtype=dtype)
+        solver.solve(solution_field=sol_a, rhs_field=scaled.copy())
+        trans += 1
+        want_a = ref @ scaled.ravel().astype(np.float64)
+        if not np.abs(sol_a.ravel().astype(np.float64) - want_a).max() <= tol * np.abs(scaled.astype(np.float64)).sum():
+            fails.append(Fail(f"{tag}:amplitude", "right-hand side scaled by a constant: result is not the direct summation scaled by the same constant", shape=shape, dtype=dtype, amplitude=amp))
+    solver.solve(solution_field=sol, rhs_field=dense)
+    trans += 1
     # the same solve through a POSITIONAL call in the documented order (solution, right-hand side)
     sol_p = np.full(shape, np.nan, dtype=dtype)
     solver.solve(sol_p, dense.copy())
